@@ -12,7 +12,8 @@ CONSTS = ['ops', 'ctl']          # constant tables of the models this property d
 RULE = ("programs of C02 in five-stage mode with hazard detection, the cycle in which each instruction leaves WB and the total "
         "cycle count compared with an independent reference of the documented schedule; straight-line programs of n mutually "
         "independent instructions (n = 0..40) for the n+4 clause; cache configurations with penalties 0-5 for the per-step "
-        "increment clause; non-trivial = program with >=1 stall or flush, or n>=1; distinct = distinct (program, registers, caches)")
+        "increment clause, incl. programs of environment calls (print-string over partly cached strings) under caches with a "
+        "penalty > 0; non-trivial = program with >=1 stall or flush, or n>=1; distinct = distinct (program, registers, caches)")
 ASSUMPTIONS = ["as C02"]
 
 
@@ -32,6 +33,10 @@ def cases(rng, tier):
     k = 250 if tier == "quick" else 4000
     for i in range(k):
         yield rvgen.sim_case(rng, "five", hazard=True, opts={"wide": i % 4 == 0}, trace=45, run=600, dprob=0.4, iprob=0.4, suite="sim-five")
+    # environment calls (print-string reads through the data cache without being counted) under caches with a penalty
+    for i in range(40 if tier == "quick" else 600):
+        yield rvgen.ecall_case(rng, "five", hazard=True, trace=45, run=300, dspec=rvgen.penalty_cache_spec(rng, "d"),
+                               ispec=rvgen.penalty_cache_spec(rng, "i") if i % 3 == 0 else "-", suite="sim-five-ecall")
 
 
 nontrivial = c02.nontrivial
